@@ -9,6 +9,7 @@ from asyncio import (
     QueueEmpty,
     ensure_future,
     gather,
+    shield,
     get_running_loop,
     isfuture,
 )
@@ -80,6 +81,7 @@ class StreamItemQueue:
         self._finished = False
         self._stopped = False
         self._cleaned = False
+        self._consumer_cleanup: Future[None] | None = None
         if eager:
             try:
                 get_running_loop()
@@ -146,7 +148,11 @@ class StreamItemQueue:
                 try:
                     entry = await entry
                 except Exception:
-                    await self._cleanup()
+                    # The cleanup must not be lost when this consumer is cancelled
+                    # meanwhile: run it as a task of its own, which an abort of
+                    # the queue then waits for.
+                    self._consumer_cleanup = ensure_future(self._cleanup())
+                    await shield(self._consumer_cleanup)
                     raise
             if entry is _END:
                 self._stopped = True
@@ -231,6 +237,10 @@ class StreamItemQueue:
             producer_task.cancel()  # type: ignore[union-attr]
             self._producer_cancelled = True
         if self._aborted:
+            consumer_cleanup = self._consumer_cleanup
+            if consumer_cleanup is not None and not consumer_cleanup.done():
+                # the consumer is cleaning up after a failed item: wait for it
+                return consumer_cleanup
             # Aborted (or failed) before, so the cleanup has already run; only
             # release a producer that was still parked.
             return self._settle_parked() if parked else None
